@@ -363,6 +363,12 @@ def quoter_strings(rng, tier, budget):
     for base in ("abc", "a/b-c", "k=v", "A.z~_"):
         for c in singles:
             strs += [c + base, base[:2] + c + base[2:], base + c, base + c + c]
+    # CPython's string KIND (1-, 2-, 4-byte storage) is a dimension of the compiled quoter that the code-point model does not have: every
+    # short text over {'%', hex digit, hex letter, low / high lone surrogate} - surrogates inside, before and after escapes - in the company of
+    # a Latin-1, a BMP and an astral character (the astral one makes the whole string 4-byte kind), before and after it
+    cores = list(gens.strings_over(["%", "4", "a", "\udc80", "\ud800"], 4))
+    for comp in ("\xe9", "\u0430", "\U0001f40d"):
+        strs += [c + comp for c in cores] + [comp + c for c in cores if "\udc80" in c or "\ud800" in c]
     strs += [gens.rand_text(rng) for _ in range(int((4000 if tier == "quick" else 60000) * budget))]
     return strs
 
